@@ -262,10 +262,25 @@ Example link_nonvacuous :
   let it2 := mkItem [0; 3] [0; 10] 0 true false false (2, 101) in
   let o := mkObs (Some (1, 100)) (Some (1, 100)) (Some 100) in
   let t := mkTrace 0 0
-    [mkStep KPlog false [mkSlot it1 (mkObs None None None) o] ROk [CIns [0; 3] [0; 10] (1, 100) 0%Z true];
-     mkStep KPlog false [mkSlot it2 o o] RViolation [CIns [0; 3] [0; 10] (2, 101) 0%Z false]] in
+    [mkStep KPlog false [mkSlot it1 false (mkObs None None None) o] ROk [CIns [0; 3] [0; 10] (1, 100) 0%Z true];
+     mkStep KPlog false [mkSlot it2 false o o] RViolation [CIns [0; 3] [0; 10] (2, 101) 0%Z false]] in
   agrees t = true /\ satisfies t = true
-  /\ satisfies (mkTrace 0 0 [mkStep KPlog false [mkSlot it2 o (written (@snd N N) it2)] ROk []]) = false.
+  /\ satisfies (mkTrace 0 0 [mkStep KPlog false [mkSlot it2 false o (written (@snd N N) it2)] ROk []]) = false.
+Proof. vm_compute. repeat split. Qed.
+
+(* another writer filled the slot underneath the node's cache (the node still sees it empty: top and API
+   views None, raw bytes present): the append must still be refused; an append that answers ok and replaces
+   the raw bytes is rejected by the oracle, which judges the shared storage *)
+Example foreign_writer_nonvacuous :
+  let itB := mkItem [0; 3] [0; 10] 0 true false false (1, 100) in
+  let itA := mkItem [0; 3] [0; 10] 0 true false false (2, 101) in
+  let e := mkObs None None None in
+  let f := mkObs None (Some (1, 100)) None in
+  let t := mkTrace 2 0
+    [mkStep KForeign false [mkSlot itB true e f] ROk [];
+     mkStep KPlog false [mkSlot itA true f f] RViolation [CIns [0; 3] [0; 10] (2, 101) 0%Z false]] in
+  agrees t = true /\ satisfies t = true
+  /\ satisfies (mkTrace 2 0 [mkStep KPlog false [mkSlot itA true f (mkObs (Some (2, 101)) (Some (2, 101)) (Some 101))] ROk []]) = false.
 Proof. vm_compute. repeat split. Qed.
 
 Print Assumptions log_append_refused_partial.
